@@ -438,9 +438,11 @@ def observe(I, conn, out, pre):
     return post
 
 
-def conn_native_case(op, inputs, msg_name="m", args=None, with_msg=True, comp_ids_ok=False, begin_ok=True):
+def conn_native_case(op, inputs, msg_name="m", args=None, with_msg=True, comp_ids_ok=False, begin_ok=True, mtype=None):
     ob = inputs.get("__observed__", {})
     inputs = dict(inputs)
+    if mtype is not None:
+        inputs[msg_name + "_type"] = mtype
     if with_msg and begin_ok and (msg_name + "_has_8") not in inputs:
         inputs[msg_name + "_has_8"] = True
         inputs[msg_name + "_v8"] = "FIX.4.4"
